@@ -13,6 +13,8 @@ R3.10 every Python type chosen for a string format encodes back to a JSON string
 R3.9  the generated get_mapping() has an entry for every discriminator value of the spec (a conforming document with an aliased value decodes)  [= R14.5]
 R3.13 a field the Meta map does not list has the same wire key in both directions: its own name (no derived key on one side)
 R3.12 union variants are tried in declared order (a document of the first variant is not captured by a later, laxer one)          [= R14.9]
+R3.14 the resolver's by-name fallback never merges kinds: an inline number property named like an integer schema stays a number  [= R2.11]
+R3.15 the union decoder reads the discriminator from the type as given and keeps Annotated members whole                          [= R14.11]
 R3.11 wire keys / discriminator values are emitted as literals that evaluate to the spec's own string (non-BMP characters survive)  [= R15.5]
 R3.8  nullability written as a type array is read from the document node at every sibling site (never from IRSchema.type, a string)
 R3.5  recursion over field types: every field of every dataclass gets its nested types registered (no skip)
@@ -192,6 +194,14 @@ def run(repo: Repo, rep: Report, tier: str) -> None:
     from rules.c14 import rule_declared_order as _rdo
 
     _rdo(repo, rep, "R3.12")
+    # R3.14: an inline primitive property is never typed as a registered schema of another kind that happens to share its name   [= R2.11]
+    from rules.c02 import rule_name_fallback_respects_kind as _rnf
+
+    _rnf(repo, rep, "R3.14")
+    # R3.15: a discriminated union keeps its discriminator on the way into the decoder (field of type `X | None` included)          [= R14.11]
+    from rules.c14 import rule_metadata_from_the_given_type as _rmg
+
+    _rmg(repo, rep, "R3.15")
     _reuse39(repo, rep, "c15", {"R15.5": "R3.11"}, only=lambda subj: "python_construct_renderer" in subj)
     # ---------------------------------------------------------------- R3.8 type-array nullability is read from the document node
     # `type: [string, "null"]` lives in the raw node; IRSchema.type is a plain string (ir.py), so a test `isinstance(<ir>.type, list)` can never
